@@ -482,6 +482,7 @@ type Verified struct {
 }
 
 type VerifyReq struct {
+	SigType   string // force a signer module (the command line can only auto-detect)
 	Path      string
 	Content   string // detached content (PGP/pkcs7)
 	NoChain   bool
@@ -528,6 +529,9 @@ func (e *Env) Verify(v *VerifyReq) (out []Verified, err error) {
 	mod := signers.ByMagic(fileType)
 	if mod == nil {
 		mod = signers.ByFileName(v.Path)
+	}
+	if v.SigType != "" {
+		mod = signers.ByName(v.SigType)
 	}
 	if mod == nil {
 		return nil, errors.New("unknown filetype")
